@@ -1,7 +1,7 @@
 (* C08 — Connection recovery re-establishes an authenticated session.  The recovery loop of the client
    (Model/Recovery.v) against every sequence of per-attempt outcomes the environment can produce. *)
 From Coq Require Import List NArith.
-From OAP Require Import Base.Bytes Base.Res Gen.Consts Model.Recovery Proofs.RecoveryP.
+From OAP Require Import Base.Bytes Base.Res Gen.Consts Model.Recovery Proofs.RecoveryP Model.Life Proofs.LifeP.
 Import ListNotations.
 Local Open Scope N_scope.
 
@@ -47,8 +47,29 @@ Example C08_example :
    [EvCloseOld 1; EvSweep; EvDial false; EvSleep; EvCloseOld 1; EvSweep; EvDial true; EvFrameReconnect 2 7; EvFrameAuth 2; EvRecovered]).
 Proof. vm_compute. reflexivity. Qed.
 
+(* EVERY loss is recovered (lifecycle model, every interleaving of losses, recovery steps, Close, writes and goroutine
+   exits): in every reachable state of a client that is not closed, either a connection is open or a recovery is
+   running - also when the connection that died is the one a recovery had just installed and that recovery is still
+   finishing (authenticating, or inside the after-reconnect callback with the single-flight flag set): the loss is
+   recorded (l_pending) and the loop starts over.  And a running recovery at its loop head always has a next step. *)
+Theorem C08_every_loss_is_recovered : forall max acts s, lrun (l0 max) acts = Ok s ->
+  l_closed s = false -> none_open s = true -> l_recovering s = true.
+Proof. exact loss_is_covered. Qed.
+Theorem C08_recovery_progresses : forall s, LInv s -> l_recovering s = true -> l_phase s = PhIdle -> l_closed s = false ->
+  exists s', lstep s LRetryBegin = Ok s' /\ (l_phase s' = PhDialing \/ l_closed s' = true).
+Proof. exact recovering_idle_progresses. Qed.
+(* the window itself: the new connection dies while the after-reconnect callback runs; the client recovers again *)
+Example C08_loss_while_finishing :
+  match lrun (l0 0) [LConnLost; LRetryBegin; LDialDone true; LAuthDone true; LConnLost; LFinish] with
+  | Ok s => l_recovering s = true /\ l_phase s = PhIdle /\ l_pending s = false /\ none_open s = true
+  | _ => False
+  end.
+Proof. vm_compute. repeat split. Qed.
+
 Print Assumptions C08_resume_iff_unexpired.
 Print Assumptions C08_unauthenticated_falls_back_to_auth.
 Print Assumptions C08_recover_outcomes.
 Print Assumptions C08_attempts_bounded_by_budget.
 Print Assumptions C08_old_connection_closed_first.
+Print Assumptions C08_every_loss_is_recovered.
+Print Assumptions C08_recovery_progresses.
